@@ -30,7 +30,10 @@ import (
 	ma "github.com/multiformats/go-multiaddr"
 	mh "github.com/multiformats/go-multihash"
 
+	"github.com/ipfs/go-libdht/kad/key"
+
 	pb "github.com/libp2p/go-libp2p-kad-dht/pb"
+	"github.com/libp2p/go-libp2p-kad-dht/provider/internal/keyspace"
 	"github.com/libp2p/go-libp2p-kad-dht/provider/keystore"
 	kb "github.com/libp2p/go-libp2p-kbucket"
 )
@@ -285,9 +288,17 @@ func c17Gen(r *vfRand, size int) c17Case {
 		c.NPeers = 1 + r.Intn(150)
 	}
 	c.R = 1 + r.Intn(5)
+	// the router reports K >= max(r, 2) peers: with a single reported peer the
+	// exploration cannot delimit what a lookup covered (provider.go:922)
 	c.K = c.R
-	if r.Chance(25) {
+	switch x := r.Intn(100); {
+	case x < 25:
 		c.K = c.R + 1 + r.Intn(3)
+	case x < 40:
+		c.K = 20
+	}
+	if c.K < 2 {
+		c.K = 2 + r.Intn(3)
 	}
 	c.IntervalS = []int64{1800, 3600, 7200, 22 * 3600}[r.Intn(4)]
 	c.MaxDelayS = c.IntervalS / []int64{20, 10, 4}[r.Intn(3)]
@@ -520,6 +531,9 @@ func c17Run(t *testing.T, r *vfRand, c c17Case, keys []mh.Multihash, peers []pee
 				}
 			}
 			synctest.Wait()
+			if c17Debug && prov != nil {
+				c17DumpSchedule(env, prov, fmt.Sprintf("after step %d %s", si, st.Act))
+			}
 		}
 		env.mu.Lock()
 		res.endUs = env.now()
@@ -535,6 +549,16 @@ func c17Run(t *testing.T, r *vfRand, c c17Case, keys []mh.Multihash, peers []pee
 	res.nSent, res.nRouter, res.unknown = env.nSent, env.nRouter, env.unknown
 	env.mu.Unlock()
 	return res
+}
+
+func c17DumpSchedule(env *c17Env, prov *SweepingProvider, what string) {
+	prov.scheduleLk.Lock()
+	defer prov.scheduleLk.Unlock()
+	var it []string
+	for e := range keyspace.EntriesIter(prov.schedule, prov.order) {
+		it = append(it, fmt.Sprintf("%s@%.1f", string(e.Key), e.Data.Seconds()))
+	}
+	fmt.Printf("  [%d us] %s: schedule %v cursor %q order %s\n", env.now(), what, it, string(prov.scheduleCursor), key.BitString(prov.order)[:6])
 }
 
 // ---- emission -------------------------------------------------------------------------------------
@@ -596,7 +620,7 @@ func TestVerifC17(t *testing.T) {
 	seed := vfSeed()
 	n := vfEnvInt("VERIF_N", 20)
 	only := vfOnly()
-	cs := vfNewCases("Run_C17", 4)
+	cs := vfNewCases("Run_C17", 10)
 	root := vfNewRand(seed ^ 0x5eed17)
 	for i := 0; i < n; i++ {
 		r := root.Fork()
